@@ -12,7 +12,5 @@ func drawC06(rt *rapid.T, p *Plan, tier string) *Plan { return p }
 func (r *run) runC02()                               {}
 func (r *run) runC04()                               {}
 func (r *run) runC06()                               {}
-func (r *run) checkC03(n *Node, h uint32)            {}
 func (r *run) checkC11(n *Node, h uint32)            {}
-func (r *run) finalC03(n *Node)                      {}
 func (r *run) finalC11(n *Node)                      {}
